@@ -222,7 +222,9 @@ class Section(Error):
             resolved_field = self.assign.get(command, field_name)
             apply_action(target, operation, key, self.scope, name, command, insert, resolved_field)
             return True
-        except ValueError as exc:
+        except (ValueError, OSError) as exc:
+            # OSError is what inet_pton answers a mistyped address with (IP.pton, IP.from_string): it is a refusal
+            # of the value like any ValueError, and went through here as an exception out of API.api_route
             return self.error.set(str(exc))
 
     # Schema-based methods
